@@ -56,6 +56,29 @@ func valuesCalls(tb *TB, f *ssa.Function, method string) []kvCall {
 		}
 		out = append(out, kv)
 	})
+	if method == "Set" {
+		// the literal form url.Values{"key": {value}} sets a key like Values.Set does
+		EachInstr(f, func(in ssa.Instruction) {
+			mu, ok := in.(*ssa.MapUpdate)
+			if !ok || !strings.HasSuffix(mu.Map.Type().String(), "net/url.Values") {
+				return
+			}
+			kv := kvCall{in: in}
+			if k, ok := mu.Key.(*ssa.Const); ok && k.Value != nil && k.Value.Kind() == constant.String {
+				kv.key = constant.StringVal(k.Value)
+			} else {
+				kv.key = "?" + tb.Of(mu.Key).String()
+			}
+			vt := tb.Of(mu.Value)
+			if el := varargsElems(tb, vt); len(el) == 1 {
+				kv.val = el[0]
+			} else {
+				kv.val = vt
+				kv.key = "?multi:" + kv.key
+			}
+			out = append(out, kv)
+		})
+	}
 	return out
 }
 
